@@ -23,6 +23,18 @@ pub struct Reorder {
     pub allow_reorder: bool,
     pub allow_dup: bool,
     pub dup_used: bool,
+    /// which datagrams are fragments of the multi-datagram response under test (only those are duplicated)
+    pub is_fragment: fn(&[u8]) -> bool,
+}
+
+pub fn fragment_predicate(family: &str, label: &str) -> fn(&[u8]) -> bool {
+    match family {
+        "valve-source-split" | "valve-goldsrc-split" => |d| d.first() == Some(&0xFE),
+        "gamespy3-splitnum" => |d| d.first() == Some(&0x00),
+        "unreal2-lists" if label.contains("rules in") => |d| d.get(4) == Some(&1),
+        "unreal2-lists" => |d| d.get(4) == Some(&2),
+        _ => |_| true,
+    }
 }
 
 impl Policy for Reorder {
@@ -32,7 +44,8 @@ impl Policy for Reorder {
             return 1;
         }
         let base = if self.allow_reorder { q } else { 1 };
-        base + if self.allow_dup && !self.dup_used { q } else { 0 }
+        let frags = pt.queue.iter().all(|d| (self.is_fragment)(d));
+        base + if self.allow_dup && !self.dup_used && frags { q } else { 0 }
     }
     fn recv_pick(&mut self, pt: &RecvPoint, idx: usize) -> Pick {
         let q = pt.queue.len();
@@ -377,6 +390,7 @@ impl Prop for C08 {
                     allow_reorder: case.reorder,
                     allow_dup: case.dup,
                     dup_used: false,
+                    is_fragment: fragment_predicate(case.family, &case.label),
                 };
                 let x = run_query((case.server)(), Box::new(policy), ch, || (case.call)());
                 // did this execution deliver a duplicate? (a Dup pick is an index >= number in flight; recompute from the log)
@@ -402,8 +416,24 @@ impl Prop for C08 {
                     Outcome::Ok(v) => {
                         let only_order = sort_lists(v) == sort_lists(&baseline);
                         let path = first_diff(&baseline, v).unwrap_or_default();
+                        // entries merely listed twice (and nothing lost or altered)?
+                        fn dedup_lists(v: &Value) -> Value {
+                            match v {
+                                Value::Array(a) => {
+                                    let mut items: Vec<Value> = a.iter().map(dedup_lists).collect();
+                                    items.sort_by_key(|x| x.to_string());
+                                    items.dedup();
+                                    Value::Array(items)
+                                }
+                                Value::Object(m) => Value::Object(m.iter().map(|(k, x)| (k.clone(), dedup_lists(x))).collect()),
+                                other => other.clone(),
+                            }
+                        }
+                        let only_repeats = *dup && dedup_lists(v) == dedup_lists(&baseline);
                         let class = if only_order {
                             format!("arrival-order-changes-list-order:{}", case.family)
+                        } else if only_repeats {
+                            format!("duplicate-fragment-repeats-list-entries:{}", case.family)
                         } else if *dup {
                             format!("duplicate-fragment-changes-response:{}", case.family)
                         } else {
